@@ -67,7 +67,7 @@ def make_flavour(flavour, host):
                                  description=None)
 
         def hook(c, k, s):
-            webhook.handle_github_status_event(bert_e, {
+            return webhook.handle_github_status_event(bert_e, {
                 'sha': c, 'state': GH_OF[s], 'context': k,
                 'description': None, 'target_url': None})
         return repo, make_status, hook
@@ -106,7 +106,7 @@ def make_flavour(flavour, host):
                                      description='')
 
     def hook(c, k, s):
-        webhook.handle_bitbucket_repo_event(bert_e, 'commit_status_updated', {
+        return webhook.handle_bitbucket_repo_event(bert_e, 'commit_status_updated', {
             'commit_status': {
                 'state': s, 'key': k, 'url': 'http://ci', 'description': '',
                 'links': {'commit': {'href': 'https://api/x/commit/' + c}}}})
@@ -207,7 +207,22 @@ def explore(flavour, size, depth, first_events=None, init=0):
                     host[(ev[1], ev[2])] = ev[3]
                 elif ev[0] == 'hook':
                     host[(ev[1], ev[2])] = ev[3]
-                    hook(ev[1], ev[2], ev[3])
+                    job = hook(ev[1], ev[2], ev[3])
+                    # (C13) a status event that is not "build started" must
+                    # yield an evaluation of that commit, whatever is cached
+                    if ev[3] != 'INPROGRESS' and not (
+                            type(job).__name__ == 'CommitJob' and
+                            job.commit == ev[1]):
+                        violations.append((
+                            'dropped:%s' % flavour,
+                            '%s: the webhook handler returned %r for the '
+                            'status event (%s, %s, %s): the accepted event '
+                            'is not followed by an evaluation (after %s)' % (
+                                flavour, job, ev[1][:4], ev[2], ev[3],
+                                hist + [list(ev)]),
+                            {'flavour': flavour, 'size': size,
+                             'init': INITS.index(init),
+                             'history': hist + [list(ev)]}))
                 else:
                     ans = repo.get_build_status(ev[1], ev[2])
                     answers[ans] += 1
@@ -336,8 +351,8 @@ def extend(cr, tier, seed, workers):
         transitions += r['transitions']
         answers.update(r['answers'])
         for fp, msg, case in r['violations']:
-            if fp in seen_fp:
-                continue
+            if fp in seen_fp or fp.startswith('dropped:'):
+                continue      # dropped events are judged by C13
             seen_fp.add(fp)
             cr.add_violation(msg, fp, {'engine': 'enum', 'case': case})
     p = core.Part()
@@ -369,6 +384,32 @@ def extend(cr, tier, seed, workers):
     if not answers.get('SUCCESSFUL') or not answers.get('FAILED'):
         cr.harness_errors.append('vacuous: polls never answered both '
                                  'SUCCESSFUL and FAILED: %s' % dict(answers))
+
+
+def webhook_events_pass(cr, workers=None, depth=3):
+    """For C13: every status webhook event delivered to the real handlers in
+    every state of the cache reachable in `depth` steps (incl. states with a
+    verdict already cached green) must produce a CommitJob for its commit
+    unless it only says that the build started."""
+    tasks = [(fl, size, depth, ev, init) for fl in ('github', 'bitbucket')
+             for size in (1, 2) for ev in events()
+             for init in range(len(INITS))]
+    ctx = mp.get_context('fork')
+    with ctx.Pool(workers or min(16, os.cpu_count() or 4)) as pool:
+        results = pool.map(_task, tasks, 1)
+    n = 0
+    seen_fp = set()
+    for r in results:
+        if 'error' in r:
+            cr.harness_errors.append(r['error'][-1500:])
+            continue
+        n += r['transitions']
+        for fp, msg, case in r['violations']:
+            if fp.startswith('dropped:') and fp not in seen_fp:
+                seen_fp.add(fp)
+                cr.add_violation(msg, fp, {'engine': 'enum',
+                                           'webhook_case': case})
+    return n
 
 
 def replay(data):
@@ -404,7 +445,11 @@ def replay(data):
             host[(ev[1], ev[2])] = ev[3]
         elif ev[0] == 'hook':
             host[(ev[1], ev[2])] = ev[3]
-            hook(ev[1], ev[2], ev[3])
+            job = hook(ev[1], ev[2], ev[3])
+            if data.get('judge_dropped') and ev[3] != 'INPROGRESS' and \
+                    type(job).__name__ != 'CommitJob':
+                ok = False
+                ans = 'handler returned %r' % (job,)
         else:
             ans = repo.get_build_status(ev[1], ev[2])
             sticky = (ev[1], ev[2]) in seen and (ev[1], ev[2]) in pre_present
